@@ -511,7 +511,10 @@ class Check(PropertyCheck):
             if known_cl or known_buf:
                 why = "Content-Length" if known_cl else "buffered bytes"
                 if not errored: fails.append(f"over-limit ({why}): no error hook with the body_size_limit error")
-                elif obs["client_status"] is None or obs["client_status"] < 400: fails.append(f"over-limit ({why}): client did not receive an error response")
+                elif (obs["client_status"] is None or obs["client_status"] < 400) and not (wire and done_at is None and case["framing"] == "chunked"):
+                    # (a malformed chunked continuation in the same segment closes the connection as a protocol error
+                    #  before the error response can be written: not demanded)
+                    fails.append(f"over-limit ({why}): client did not receive an error response")
                 if peer or (known_cl and obs["relayed"]): fails.append(f"over-limit ({why}): {len(peer)} body bytes were forwarded")
                 # "mitmproxy never holds more than the limit plus one received chunk"
                 for i, s in enumerate(obs["samples"]):
